@@ -780,7 +780,9 @@ def mbqi_refine(plain, quants, goal, skolems, budget):
         for q in quants:
             ks = [z3.Int('mbqi!k%d' % i_) for i_ in range(len(q.vars))]
             try:
-                e = m.eval(z3.And(q.range_cond(*ks), z3.Not(q.inst(*ks))), model_completion=True)
+                # the bound variables stay symbolic (no model completion: completion would pin them to a default value);
+                # symbols the model leaves open stay open too, which only makes the check stricter
+                e = m.eval(z3.And(q.range_cond(*ks), z3.Not(q.inst(*ks))), model_completion=False)
             except z3.Z3Exception:
                 return 'unknown', 'eval'
             s2 = z3.Solver(); s2.add(e)
